@@ -34,6 +34,7 @@ def run(ctx):
     res2 = ctx.component('K-E2E(trajectories, implementation only)', traj, model=False)
     n_eval = 0
     low = 0
+    ambiguous = 0
     keys = set()
     if res:
         for k, m in metas.items():
@@ -47,6 +48,9 @@ def run(ctx):
                 if not (minrate > pyspec.EPS) or abs(minrate - pyspec.EPS) < 1e-9 * pyspec.EPS:
                     low += 1            # general form applies (pairs at or below 1e-6 contribute only -M): loglik() implements it too
                 keys.add((m['directed'], m['assort'], m['regime'], minrate > pyspec.EPS))
+                if pyspec.LOGLIK_MARGIN[0] < 1e-9:
+                    ambiguous += 1      # an observed rate within 1e-9 relative of 1e-6: decided by rounding; judged bit-exactly by K-LIK instead
+                    continue
                 if not pyspec.close(ll, got, 1e-9, 1e-12):
                     ctx.violation('formula', 'likelihood of the %s: implementation %.15g, sum A ln M - M gives %.15g' % (what, got, ll), {'case': cases[k]})
     if res2:
@@ -69,7 +73,9 @@ def run(ctx):
                 ll, minrate = pyspec.loglik(st, A)
                 n_eval += 1
                 keys.add((m['directed'], m['assort'], m['from_init'], rs, n == it_eval))
-                if not pyspec.close(ll, L2, 1e-9, 1e-12):
+                if pyspec.LOGLIK_MARGIN[0] < 1e-9:
+                    ambiguous += 1
+                elif not pyspec.close(ll, L2, 1e-9, 1e-12):
                     ctx.violation('cadence', 'realization %d (%d sweeps, %s): reported %.15g but the likelihood of the state after sweep %d is %.15g' % (r, n, rs, L2, it_eval, ll),
                                   {'case': traj[c - 600000], 'realization': r})
                 # every evaluation along the way
@@ -77,8 +83,10 @@ def run(ctx):
                     if rr == r and (it - 1) % 10 == 0 and it in sts:
                         ll2, _ = pyspec.loglik(sts[it], A)
                         n_eval += 1
-                        if not pyspec.close(ll2, l, 1e-9, 1e-12):
+                        if pyspec.LOGLIK_MARGIN[0] < 1e-9:
+                            ambiguous += 1
+                        elif not pyspec.close(ll2, l, 1e-9, 1e-12):
                             ctx.violation('formula', 'evaluation after sweep %d: implementation %.15g, formula %.15g' % (it, l, ll2), {'case': traj[c - 600000], 'realization': r})
-    ctx.oracle.update({'evaluations': n_eval, 'distinct_nontrivial': len(keys), 'states_with_an_observed_rate_at_or_below_eps': low,
+    ctx.oracle.update({'evaluations': n_eval, 'distinct_nontrivial': len(keys), 'states_with_an_observed_rate_at_or_below_eps': low, 'set_aside_threshold_ambiguous': ambiguous,
                        'rule': 'calculate_likelyhood on installed states (random and adversarial regimes, parallel edges, self-loops, undirected) and after one sweep, and every evaluation of real trajectories (trace level 2), compared within 1e-9 relative with sum A ln M - M in python (math.fsum; log term only where M > 1e-6); the reported value of each realization against the state after sweep 10*floor((n-1)/10)+1. distinct = (variant, regime/termination, ...)'})
     ctx.samples = [{'case': cases[1][:300]}]
